@@ -342,7 +342,9 @@ static void op_range(std::mt19937_64& rng, bool thorough, const char* tname)
       {
         Ev ev("unverified_safe_pointer_because", tname);
         long hs = (long)sizeof(T);
-        ev.range("sbx", st, cnt * (GS < hs ? GS : hs)); // smallest reading of "that many elements"
+        // the caller receives a T* and walks it with host-sized elements: "that many whole
+        // elements" are elements of the pointer type handed back
+        ev.range("sbx", st, cnt * hs);
         ev.e.wide("bytes_max", cnt * (GS < hs ? hs : GS));
         const void* got = nullptr;
         const char* r = guarded([&] { got = ptr_at<T>(st).unverified_safe_pointer_because(n, "test"); });
